@@ -580,6 +580,51 @@ func (u *Universe) LateSubjectOps(rng *rand.Rand, repo, tag string) []*Op {
 	return ops
 }
 
+// InexactSizeOps is a scripted history prefix: a tagged image, and a tagged index over it, whose
+// descriptors name the right digests with sizes that are off (registries do not check the size a
+// reference states; tools that rewrite manifests get it wrong now and then). A reference is a reference:
+// the layer, the config and the image stay where the tags can reach them.
+func (u *Universe) InexactSizeOps(rng *rand.Rand, repo, tag string) []*Op {
+	u.nonce++
+	mkBlob := func(what string) []byte { return []byte(fmt.Sprintf("%s of inexact-size history %d", what, u.nonce)) }
+	push := func(b []byte) *Op {
+		return &Op{Kind: "PushBlob", Repo: repo, Data: b, Digest: Digest(b), Size: int64(len(b)), MediaType: "application/octet-stream"}
+	}
+	off := func(d ocispec.Descriptor) ocispec.Descriptor {
+		d.Size += []int64{1, 7, -1, 1000}[rng.IntN(4)]
+		if d.Size <= 0 {
+			d.Size = 1
+		}
+		return d
+	}
+	cfg, layer := mkBlob("config"), mkBlob("layer")
+	img := ocispec.Manifest{MediaType: MTImage, Config: desc("application/vnd.oci.image.config.v1+json", cfg), Layers: []ocispec.Descriptor{off(desc("application/octet-stream", layer))}}
+	if rng.IntN(2) == 0 {
+		img.Config = off(img.Config)
+	}
+	img.SchemaVersion = 2
+	imgData, _ := json.Marshal(img)
+	idx := ocispec.Index{MediaType: MTIndex, Manifests: []ocispec.Descriptor{off(desc(MTImage, imgData))}}
+	idx.SchemaVersion = 2
+	idxData, _ := json.Marshal(idx)
+	ops := []*Op{push(cfg), push(layer)}
+	if rng.IntN(2) == 0 {
+		ops = append(ops, &Op{Kind: "PushManifest", Repo: repo, Tag: tag, Data: imgData, MediaType: MTImage})
+	} else {
+		ops = append(ops, &Op{Kind: "PushManifest", Repo: repo, Data: imgData, MediaType: MTImage},
+			&Op{Kind: "PushManifest", Repo: repo, Tag: tag, Data: idxData, MediaType: MTIndex})
+	}
+	ops = append(ops,
+		&Op{Kind: "GetTag", Repo: repo, Tag: tag},
+		&Op{Kind: "DeleteBlob", Repo: repo, Digest: Digest(layer)},
+		&Op{Kind: "GetBlob", Repo: repo, Digest: Digest(layer)},
+		&Op{Kind: "DeleteBlob", Repo: repo, Digest: Digest(cfg)},
+		&Op{Kind: "DeleteManifest", Repo: repo, Digest: Digest(imgData)},
+		&Op{Kind: "GetManifest", Repo: repo, Digest: Digest(imgData)},
+	)
+	return ops
+}
+
 // LyingChildOps is a scripted history prefix: a manifest of a type the registry does not look into (its
 // bytes are no image manifest), an ordinary image, and a tagged index that lists the first - stated to be
 // an image manifest - in front of the second; then attempts to delete the second image and its layer.
